@@ -9,7 +9,9 @@ ENTRY = dict(
          "and some unknown ids, and 18 values beyond the one-byte-prefix limits (error branches and the remaining ALPN narrowing; oracle: what Read accepts must have matching prefixes). "
          "Call orders: per type three more values, each built as identical fresh copies whose FIRST call differs (Read into "
          "Len-1 / 4 / Len bytes before any Len(), Read twice, Len twice, Write then Read without Len()), judged against "
-         "the length the object reports afterwards. A case is distinct by (type, size, index, buffer class) resp. (type, size, index, psk choice) or corpus index; a "
+         "the length the object reports afterwards. Edits: per type three objects are encoded once (Len+Read / Len / Read), ALL exported fields are overwritten by "
+         "those of a second generated value (reflection), then Len/Read are judged again (keys <Type>/after-edit/<rule>; "
+         "CReadObj cases carry the first encoding for the model of the QUIC marshal cache). A case is distinct by (type, size, index, buffer class) resp. (type, size, index, psk choice) or corpus index; a "
          "read is non-trivial when Len > 4 and the buffer is large enough, a write when the body is non-empty and Write "
          "accepted it.",
     trusted_base=["harness/extcoq (reflection-based renderer of Go extension values as Coq terms; copy of hostnameInSNI)"],
